@@ -32,7 +32,9 @@ claim("C04", "closed-world `raises` clause of every loader closure under contrac
 claim("C02", "function-against-spec: accept-iff / value / documented-rejection clauses transcribed from "
              "specific-types-behavior.rst, proved for every scalar loader, the composed iterable, dict, tuple, union, literal, enum and "
              "flag loaders, and for the container dumpers (iterable, dict, tuple in the three debug-trail modes against one spec; union "
-             "dumper = ClassDispatcher.dispatch on type(data), proved first-in-MRO; optional dumper; list children dump as list)",
+             "dumper = ClassDispatcher.dispatch on type(data), proved first-in-MRO; union dumper with a Literal case: the literal dumper only for "
+             "objects that ARE a literal value, class dispatch for everything else; optional dumper; list children dump as list) and for "
+             "the scalar dumpers (clause `form`: the documented outer class; base64 text that the loader's own pattern accepts)",
       note=NOTE + " C02-specific: documented type aliases (Mapping ~ Dict, abstract iterables ~ their implementation) are decided by a "
                   "bounded equivalence check; loaders that are not repository code (stdlib constructors registered as loaders, builtin lax "
                   "loaders) are probed per cell of D in all six configurations (no solver; labelled bounded).")
@@ -51,17 +53,25 @@ claim("C20", "implicit frame clause `modifies nothing` on every unit (any store 
              "freshness of built containers (closure state, memoising decorators, copying coercers, flag dumpers, generated loaders, "
              "dumpers and converters)",
       note=NOTE + " C20-specific: dumpers with extra_out and inputs whose own __getitem__ has a side effect (collections.defaultdict, outside "
-                  "D) are exercised by bounded probes in props/C20.py (labelled bounded). Known finding recorded: required keys are inserted "
+                  "D) are exercised by bounded probes in props/C20.py (labelled bounded; several extra_out targets, as-is and typed, on dataclass "
+                  "and on a TypedDict with a NotRequired key). Known finding recorded: required keys are inserted "
                   "into a defaultdict input by `data[key]`.")
 claim("C01", "loader value clauses (result equals the constructor applied to the dumped form) for scalars, enums, flags and literals; "
              "the model round trip as a lemma over the generated loader and dumper contracts instantiated from the same independent "
              "layout (the dumper writes every field to exactly the path the loader reads it from, the loader accepts every tree of that "
              "shape and binds the value to the right constructor parameter); typing.Self resolves to the nearest enclosing model "
-             "(find_owner_with_field, loop invariant)",
-      note=NOTE + " C01-specific: the lemma is stated in props/C01.py and rests on the GENPROG obligations tagged C01 (bounded over the "
+             "(find_owner_with_field, loop invariant); scalar round trips as a two-line lemma per type: the scalar dumpers (isoformat, "
+             "datetime format, datetime / date timestamp, timedelta seconds, bytes / bytearray / BytesIO base64, Decimal / Fraction / "
+             "complex str, regex pattern, as-is scalars, None) carry the clause `inverse`: the spec function of the loader's `value` clause "
+             "applied to the dumped form gives back the datum, for every typed cell of D and (dates, naive datetimes) in three process "
+             "time zones",
+      note=NOTE + " C01-specific: the model lemma is stated in props/C01.py and rests on the GENPROG obligations tagged C01 (bounded over the "
                   "program family, unbounded over inputs); round trips of iterable/dict/tuple/union containers follow from the element-wise "
-                  "value clauses of their loaders only where a dumper contract exists (enum/flag/literal/scalars) — container dumpers are "
-                  "not yet under contract.")
+                  "value clauses of their loaders and dumpers. Scalar dumpers that are stdlib methods handed out by the provider "
+                  "(`date.isoformat`, `timedelta.total_seconds`, `Decimal.__str__`) are applied like every other built-in: probed per "
+                  "live cell (typed cells: date, datetime naive/utc/+3, time, timedelta incl. negative fractional, bytes incl. 70 bytes, "
+                  "BytesIO incl. a read position, re.Pattern incl. flags). path_like_dumper, the IO[bytes] dumper (reads the stream: "
+                  "outside D) and the literal dumpers are not under contract.")
 
 claim("C09", "per-function contracts on the resolution machinery: ExactOriginCombiner (flush leaves the buffer empty, emitted items in "
              "order), both routers' route_handler (first match at/after the offset, loop invariant), BasicRequestBus._send_inner "
@@ -95,7 +105,9 @@ claim("C14", "post-conditions of the as-is coercer providers (same type, destina
              "each raises only CannotProvide otherwise; Optional coercer: applicability (None plus exactly one other type) and closure (None stays "
              "None, every other value — 0, [], {} too — goes through the inner coercer); a converter is produced exactly when the documented "
              "rules give every destination field a source and a coercer (creation / refusal obligations of the GENPROG converter family, "
-             "unlinked-optional policy per field)",
+             "unlinked-optional policy per field); IterableCoercerProvider / DictCoercerProvider._parse_source / _parse_destination: every "
+             "normalised hint is parsed or refused with CannotProvide (index safety of `norm.args[...]` is an obligation of these units, "
+             "under the stated type invariant of normalised hints)",
       note=NOTE + " C14-specific: strip_tags / is_generic / is_parametrized / is_subclass_soft are abstracted as deterministic "
                   "total functions; `==` of normalised types is the relation py_eq; iterable / dict coercers are under contract only for "
                   "their copying behaviour; refusal is decided per program of the converter family (bounded over programs).")
@@ -123,7 +135,8 @@ claim("C08", "generated loaders: the model constructor is called exactly once, e
              "text that evaluates back to an equal object of exactly the same type",
       note=NOTE + GENPROG_NOTE + " C08-specific: get_literal_expr is proved over all leaf objects of D and a printed family of "
                                  "container shapes (evaluation of rendered text is judged by CPython's eval per shape: bounded over "
-                                 "shapes); shape introspection of pydantic/sqlalchemy/NamedTuple/TypedDict models is outside the claim.",
+                                 "shapes); defaults of absent fields on 8 mapping classes incl. mappings that fabricate values "
+                                 "(defaultdict, Counter, __missing__) are a bounded probe (props/C08.py); shape introspection of pydantic/sqlalchemy/NamedTuple/TypedDict models is outside the claim.",
       ref="DESIGN.md §5, Appendix D")
 
 claim("C10", "every checker class is proved against the pointwise statement of the property for ARBITRARY inner predicates (total "
